@@ -10,6 +10,7 @@ from ..viol import Violation, require
 ID = 'C11'
 LEVEL = 'exploration'
 RULE = (
+    'S: copies into a target with dynamic reordering enabled, the trigger placed at every node-creation request (as in C09). '
     'E: n<=3 every function x every (source order, target order) pair; n=4 '
     'every function x seeded order pairs (3 quick / 8 thorough); forms '
     'dd.bdd.BDD.copy, dd.bdd.copy_bdd, dd.autoref.BDD.copy, '
@@ -31,6 +32,12 @@ ASSUMPTIONS = [
 
 def plan(tier, seed):
     specs = []
+    # targets with dynamic reordering enabled: every position of the
+    # trigger during the copy (machinery of C09)
+    for s_ in range(6 if tier == 'thorough' else 2):
+        specs.append(dict(kind='schedule', seed=seed * 100 + 80 + s_,
+                          only=['copy', 'ar_copy_bdd', '_copy_copy_bdd'],
+                          examples=240 if tier == 'thorough' else 36))
     for n in (1, 2, 3):
         for so in fix.orders(n):
             specs.append(dict(kind='pairs', n=n, source=so,
@@ -151,8 +158,19 @@ def check_random_case(case):
     F = tt.full(n)
     so, to = case['source'], case['target']
     if case['mode'] == 'copy_vars':
-        S = _ar.BDD()
-        S.declare(*so)
+        if case['src_history']:
+            # declaration order differs from level order: explicit levels
+            # given in another order, or reordered after declaring
+            if case['tgt_history']:
+                lv = {x: l for l, x in enumerate(so)}
+                S = _ar.BDD({x: lv[x] for x in sorted(so)})
+            else:
+                S = _ar.BDD()
+                S.declare(*sorted(so))
+                S.reorder({x: l for l, x in enumerate(so)})
+        else:
+            S = _ar.BDD()
+            S.declare(*so)
         T = _ar.BDD()
         if case['api']:
             _ar.copy_vars(S, T)
@@ -249,10 +267,16 @@ def run_random(spec, out):
 
 
 def run(spec, out):
+    if spec['kind'] == 'schedule':
+        from . import c09
+        return c09.run_schedule(spec, out)
     dict(pairs=run_pairs, random=run_random)[spec['kind']](spec, out)
 
 
 def replay_into(case, out):
+    if case['kind'] == 'schedule':
+        from . import c09
+        return c09.replay_into(case, out)
     if case['kind'] == 'random':
         out.guard(case, lambda: check_random_case(case))
         out.count(1, 0)
